@@ -21,7 +21,7 @@ Checks checksFor(const std::string& p)
     else if (p == "C12") { c.audit = true; }
     else if (p == "C13") { c.audit = true; c.allslots = true; }
     else if (p == "C14") { c.audit = true; c.recount = true; }
-    else if (p == "C16") { c.allslots = true; c.audit = true; }
+    else if (p == "C16") { c.allslots = true; c.audit = true; c.undercount = true; }
     else if (p == "C17") { c.allslots = true; c.audit = true; c.recount = true; c.cachecount = true; }
     return c;
 }
@@ -95,6 +95,9 @@ bool Interp::auditAll()
         if (C.recount) {
             if (!oracleRecount(W, f, fl, true)) return fail(fl.tag, fl.msg);
         }
+        if (C.undercount) {
+            if (!oracleRecount(W, f, fl, false)) return fail(fl.tag, fl.msg);
+        }
         if (C.cachecount) {
             if (!oracleCacheCount(W, f, fl)) return fail(fl.tag, fl.msg);
         }
@@ -167,7 +170,7 @@ bool Interp::afterStep(int index)
             }
         }
     }
-    if (C.audit || C.recount || C.cachecount) {
+    if (C.audit || C.recount || C.cachecount || C.undercount) {
         if (!auditAll()) return false;
     }
     noteForestLabels();
